@@ -22,12 +22,99 @@ WHERES = ["", "o", "-", "x ~", "o < >", "P0-4", "(o | x | ~ | < | > | -)"]
 
 def plan(tier: str, seed: int) -> list[dict]:
     n = 16 if tier == "quick" else 240
-    return [{"kind": "select", "idx": i, "seed": seed} for i in range(n)]
+    m = 10 if tier == "quick" else 120
+    return [{"kind": "select", "idx": i, "seed": seed} for i in range(n)] + [{"kind": "select", "route": "move", "idx": i, "seed": seed} for i in range(m)]
+
+
+def run_move_unit(unit: dict) -> dict:
+    """Moved notes: the text `note move` writes for a note is an item that compiles to the same note
+    (ZID, kind, dates, links; body words in order; tags and properties at least the indexed ones)."""
+    from zmon.gen import history as hg
+
+    acc = Acc()
+    seed, idx = unit["seed"], unit["idx"]
+    rng = rng_for("C12mv", seed, idx)
+    with frozen(TODAY):
+        opts = pg.GenOpts(max_items=4, max_blocks=2, allow_mod_without_zid=False, p_zid=1.0, p_section_meta=0.8, p_cont=0.4, symbols=False)
+        z = zd.gen_zdir(rng, opts, n_pages=rng.choice([1, 2]))
+        base = harness.fresh_dir("c12mv")
+        root = base / "org"
+        root.mkdir()
+        z.write(root)
+        r = db.cli(root, "db", "create")
+        if r.rc != 0:
+            acc.inconclusive.append(f"db create failed rc={r.rc}")
+            return acc.result()
+        dump = db.dump_index(root)
+        files = {rel: (root / rel).read_text() for rel in z.pages}
+        own = {e.zid: e for es in z.expected().values() for e in es if e.zid}
+        for row in dump.notes:
+            if not row["zid"] or row["zid"] not in own:
+                continue
+            for rel, t in files.items():
+                (root / rel).write_text(t)
+            dest = root / "moved_here.zo"
+            dest.write_text("# Moved here\n\n")
+            marker = rng.choice([None, None, None, "x", "~"])
+            case = {"db": True, "route": "move", "seed": seed, "idx": idx, "zid": row["zid"], "marker": marker, "files": files}
+            acc.evaluations += 1
+            try:
+                res = db.cli(root, "note", "move", row["zid"], "moved_here", *([marker] if marker else []))
+            finally:
+                db.fresh_process_state()
+            if res.rc != 0:
+                acc.not_judged += 1
+                continue
+            text = dest.read_text()
+            case["rendered"] = text
+            c = harness.compile_path(root, Path("moved_here.zo"))
+            acc.judged += 1
+            acc.count("moves.judged")
+            if c.exc is not None or c.parser_errors:
+                acc.violation(f"move: the text written for {row['zid']} is not a valid item: {c.exc or c.parser_errors[:2]}", case, cls="moved note text is not a valid item")
+                continue
+            got = c.page.notes
+            if len(got) != 1:
+                acc.violation(f"move: the text written for {row['zid']} compiles to {len(got)} notes", case, cls="moved note text compiles to != 1 note")
+                continue
+            n = got[0]
+            diffs = []
+            if n.zid != row["zid"]:
+                diffs.append("zid")
+            if pc.note_kind(n) != (marker or row["kind"]):
+                diffs.append("kind")
+            if n.create_date.isoformat() != row["create"] or n.modify_date.isoformat() != row["modify"]:
+                diffs.append("dates")
+            # links: the note's OWN links (known from the abstract page) must survive; inherited ones may or may not be carried
+            if not (set(own[row["zid"]].own_tags["links"]) <= set(n.links) <= set(row["links"])):
+                diffs.append("links")
+            for a in ("areas", "contexts", "people", "projects"):
+                if set(row[a]) - set(getattr(n, a)):
+                    diffs.append(a)
+            lost_p = {k: v for k, v in row["props"].items() if n.properties.get(k) != v}
+            if lost_p:
+                diffs.append("properties")
+            ow, nw = row["body"].split(), iter(n.body.split())
+            if not all(w in nw for w in ow):
+                diffs.append("body")
+            if marker is None and row["kind"] not in "x~-" and (n.todo_payload is None or n.todo_payload.priority != row["priority"]):
+                diffs.append("priority")
+            if diffs:
+                acc.violation(f"move: note {row['zid']} recompiles with different {diffs}: {row['body']!r} -> {n.body!r}", case, cls="moved note recompiles differently: " + ",".join(diffs))
+            inh = sum(len(row[a]) for a in ("areas", "contexts", "people", "projects"))
+            first = row["body"].split(" ", 1)[0]
+            acc.sig(("move", marker, row["kind"], "\n" in row["body"], min(inh, 3), min(len(row["props"]), 2), first != row["zid"]))
+            acc.sample({"moved": row["zid"], "text": text[-160:]}, cap=1)
+    shutil.rmtree(base, ignore_errors=True)
+    acc.merge_counts(harness.COUNTERS.take())
+    return acc.result()
 
 
 def run_unit(unit: dict) -> dict:
     from zmon.props.c12 import FINDING_DONE_PN
 
+    if unit.get("route") == "move":
+        return run_move_unit(unit)
     acc = Acc()
     seed, idx = unit["seed"], unit["idx"]
     rng = rng_for("C12db", seed, idx)
@@ -134,4 +221,4 @@ def _matches(n: dict, w: str) -> bool:
 
 
 def replay(case: dict) -> dict:
-    return run_unit({"seed": case["seed"], "idx": case["idx"]})
+    return run_unit({"seed": case["seed"], "idx": case["idx"], "route": case.get("route")})
